@@ -387,6 +387,7 @@ type sideState struct {
 	socks    []*vsock
 	cands    []Candidate // local candidates (as created)
 	signal   []string    // marshalled candidates to signal to the peer
+	sigDone  []bool      // trickle: candidate j has been handed to the peer
 	ufrag    string
 	pwd      string
 	gen      int
@@ -467,7 +468,7 @@ func (pw *pairWorld) newAgent(s *sideState, lite bool) {
 
 // addLocals creates the side's sockets and local candidates for the current generation.
 func (pw *pairWorld) addLocals(s *sideState, kinds []string, prios []uint32) {
-	s.socks, s.cands, s.signal = nil, nil, nil
+	s.socks, s.cands, s.signal, s.sigDone = nil, nil, nil, nil
 	for i, kind := range kinds {
 		ip, port, ext := sideAddr(s.idx, i, kind)
 		port += 100 * s.gen // fresh sockets per generation
@@ -508,14 +509,42 @@ func (pw *pairWorld) addLocals(s *sideState, kinds []string, prios []uint32) {
 }
 
 func (pw *pairWorld) signalAll(from, to *sideState) {
-	for _, m := range from.signal {
-		c, err := UnmarshalCandidate(m)
-		if err != nil {
-			panic(err)
-		}
-		_ = to.agent.AddRemoteCandidate(c)
-		settle()
+	for j := range from.signal {
+		pw.signalOne(from, to, j)
 	}
+}
+
+// signalOne hands candidate j of from to the peer (once).
+func (pw *pairWorld) signalOne(from, to *sideState, j int) {
+	for len(from.sigDone) < len(from.signal) {
+		from.sigDone = append(from.sigDone, false)
+	}
+	if from.sigDone[j] {
+		return
+	}
+	from.sigDone[j] = true
+	c, err := UnmarshalCandidate(from.signal[j])
+	if err != nil {
+		panic(err)
+	}
+	_ = to.agent.AddRemoteCandidate(c)
+	settle()
+}
+
+// unsignalled lists the trickle events still open: "signal:i:j" = candidate j of side i reaches the peer.
+// B's candidates come first in the default order (then A can start checking before B knows A's addresses).
+func (pw *pairWorld) unsignalled() []string {
+	var evs []string
+	for _, i := range []int{1, 0} {
+		s := pw.side[i]
+		for j := range s.signal {
+			if j >= len(s.sigDone) || !s.sigDone[j] {
+				evs = append(evs, fmt.Sprintf("signal:%d:%d", i, j))
+			}
+		}
+	}
+
+	return evs
 }
 
 func newPairWorld(raw json.RawMessage) *pairWorld {
